@@ -50,13 +50,38 @@ def gen_cases(wd, thorough):
 
 def engine_args(tier, seed, cpath, tpath, dpath):
     if tier == "thorough":
-        p = {"seeds": 3, "tlv3": 1000000, "trunc": 1200, "mutate": 250, "random": 500, "peer": 40}
+        p = {"seeds": 4, "tlv3": 1000000, "trunc": 700, "mutate": 300, "random": 1500, "peer": 40}
     else:
-        p = {"seeds": 1, "tlv3": 400, "trunc": 200, "mutate": 40, "random": 60, "peer": 6}
+        p = {"seeds": 1, "tlv3": 1200, "trunc": 240, "mutate": 60, "random": 100, "peer": 8}
     a = ["--cases", cpath, "--out", tpath, "--detail", dpath, "--seed", seed]
     for k, v in p.items():
         a += ["--" + k, v]
     return a
+
+
+def validate_chunked(tpath, chunk=120000, max_failures=6):
+    """TLC deserialises the whole NDJSON file into one value: validate large traces in slices
+    (records are independent, each carries its own `run` id)."""
+    with open(tpath) as f:
+        lines = f.read().splitlines()
+    total, fails = 0, []
+    for n, i in enumerate(range(0, len(lines), chunk)):
+        part = lines[i:i + chunk]
+        if len(lines) <= chunk:
+            path = tpath
+        else:
+            path = "%s.part%d" % (tpath, n)
+            with open(path, "w") as f:
+                f.write("\n".join(part) + "\n")
+        t, fl = vlib.validate_trace(PID, "WireTrace", "WireTrace.cfg", path, timeout=2400,
+                                    max_failures=max(1, max_failures - len(fails)), tag="t%d_" % n)
+        total += t
+        fails += fl
+        if path != tpath:
+            os.remove(path)
+        if len(fails) >= max_failures:
+            break
+    return total, fails
 
 
 def selftest(wd, good):
@@ -126,7 +151,7 @@ def run(tier, seed):
     vlib.log("[wirecodec] %s" % {k: summ[k] for k in ("cases", "kinds", "tlv_kinds_bound", "by_src", "by_obs", "panics", "unconcretizable")})
 
     # ---- 3. trace validation (the oracle)
-    total, fails = vlib.validate_trace(PID, "WireTrace", "WireTrace.cfg", tpath, timeout=2400, max_failures=6)
+    total, fails = validate_chunked(tpath)
     nviol = 0
     for fl in fails:
         runid = fl["run"]
